@@ -163,6 +163,59 @@ def _choose(driver):
 VALIDATORS["choose"] = _choose
 
 
+def _loops(driver):
+    """the two loop-ending comparisons of the pinned model against the code at and around exact ties: the grow loop is run with a target equal to
+    the added mass after k units (and one ulp below / above it), the ensemble loop with a system mass equal to the accumulated mass of the
+    first k members (and one ulp around it); what the code does there (one more unit / member or not) is what the pinned comparison says"""
+    import math
+    import gbigsmiles
+    import genrun
+    import c07
+    from rng import Recorder
+    from lib import frac
+    bad, n = [], 0
+    for text in ["C{[>][<]CC[>][<]}|uniform(10, 900)|C", "N{[$][$]C(C)C[$][$]}|gauss(200, 50)|O", "{[][<]CCO[>]; [<]C, [>]N []}|uniform(30, 400)|"]:
+        case = genrun.parse_case(text, "loops")
+        dry = genrun.run_real(case, Recorder(5), [600.0])
+        ob = genrun.objects_of(dry["log"])[0]
+        added = [m - ob["start"] for m, _ in ob["calls"]]
+        for k in (1, 2, 4):
+            if k >= len(added):
+                continue
+            a = added[k - 1]
+            for T in (a, math.nextafter(a, -math.inf), math.nextafter(a, math.inf)):
+                rec = genrun.run_real(case, Recorder(5), [T])
+                o2 = genrun.objects_of(rec["log"])[0]
+                stopped_at_k = len(o2["calls"]) == k
+                want = driver.run([{"op": "LOOPSX", "a": frac(a), "b": frac(T)}])[0].get("grow")
+                n += 1
+                if want is None or bool(want) != stopped_at_k:
+                    bad.append({"text": text, "units": k, "added": a, "target": T, "impl_stops_here": stopped_at_k, "model_stops_here": want})
+    import sysrun
+    for text in ["CCF.|60.0%|CCCl.|40.0%|", "CCO.|100.0%|"]:
+        sy = sysrun.parse_system(text, 1e6)
+        members, err, _ = sysrun.run_system(sy, Recorder(11), max_members=8)
+        masses = [float(m.weight) for m in members][:6]
+        for k in (1, 3, 5):
+            if k > len(masses):
+                continue
+            acc = 0.0
+            for w in masses[:k]:
+                acc += w
+            for M in (acc, math.nextafter(acc, -math.inf), math.nextafter(acc, math.inf)):
+                sy2 = sysrun.parse_system(text, M)
+                mem2, err2, _ = sysrun.run_system(sy2, Recorder(11), max_members=12)
+                one_more = len(mem2) > k
+                want = driver.run([{"op": "LOOPSX", "a": frac(acc), "b": frac(M)}])[0].get("sys")
+                n += 1
+                if err2 is not None or want is None or bool(want) != one_more:
+                    bad.append({"text": text, "members": k, "accumulated": acc, "system_mass": M, "impl_continues": one_more, "model_continues": want, "error": str(err2)})
+    return not bad, f"grow loop and ensemble loop at exact ties and one ulp around them ({n} runs)", bad[:5]
+
+
+VALIDATORS["loops"] = _loops
+
+
 def validate(part, driver):
     """(ok, what was compared, sample of differences)"""
     f = VALIDATORS.get(part)
